@@ -348,6 +348,18 @@ def gen_cases(run, scale):
             if other.kind == op.kind or op.kind == 'imethod':
                 add(op, ['cross:' + other.name.split(':')[0]],
                     L.ser(L.build_response(op, other.valid(g))).encode('utf-8'))
+        # ... and systematically: one valid result of EVERY result shape (`post`) of the other operations in this
+        # operation's envelope (e.g. a bare INSTANCE where VALUE.NAMEDINSTANCE is expected): the per-operation
+        # post-processing after the parser must turn every one of them into a documented error
+        by_post = {}
+        for other in ops:
+            if other.kind == op.kind or op.kind == 'imethod':
+                by_post.setdefault(other.post, []).append(other)
+        for post in sorted(by_post):
+            if post != op.post:
+                other = r.choice(by_post[post])
+                add(op, ['crossall:' + post],
+                    L.ser(L.build_response(op, other.valid(g))).encode('utf-8'))
         # systematic: the complete single-fault neighbourhood of one small valid response (thorough: all of it;
         # quick: every 12th member)
         g2 = cimgen.Gen(__import__('random').Random(r.randrange(1 << 30)), allow_cr=False, max_depth=1)
